@@ -757,6 +757,18 @@ LARGE_SLACK_NOTE = ("large-slack family: n_jobs <= 3, limit 18..30 (25..60 qubit
                     "model comparison: |model energy - implementation energy| <= 1e-9 * energy per sampled state (not relative to the largest coefficient)")
 
 
+# Float-resolution bound of the huge-limit family: n_jobs <= 3, limit <= 70, W >= 1/4.  The weights (J+1)^(end-limit)/J go down to
+# 2^-70 ~ 8e-22 (4^-36/3 ~ 7e-23 for three jobs): normal doubles, each correctly rounded (relative <= 2^-53); the energy of a
+# feasible state is a sum of at most 3 such weights times W (two more roundings each), i.e. exact to a relative <= 1e-15 of
+# the energy itself, and it is evaluated here in exact integer arithmetic.  Two makespan classes M1 < M2 satisfy
+# E2 >= (J+1)/J * E1, a relative gap >= 1/(J+1) >= 1/4: the strictness clause is never inside the rounding, none is skipped.
+HUGE_LIMIT_NOTE = ("huge-limit family: (n_jobs+1)^limit >= 2^63 (one job: limit 63..70, two: 40..45, three: 32..36). (a) unit-length operations, 60..136 qubits: "
+                   "feasible schedules enumerated independently (all, or the 2500 with the smallest / largest makespans plus a random sample), a few infeasible and undecodable states, "
+                   "energies exact from the term list; (b) long operations with slack 1..3, <= 12 qubits, all basis states. Bound enforced: n_jobs <= 3, limit <= 70, W >= 1/4: "
+                   "weights >= 7e-23 are normal doubles, a feasible state's energy is exact to <= 1e-15 relative, makespan classes differ by a relative >= 1/(J+1) >= 1/4, so no strictness clause is skipped; "
+                   "model comparison |model - implementation| <= 1e-9 * |energy| per sampled state")
+
+
 def feasible_schedules_dfs(inst, L, cap=8000):
     """All feasible schedules with every operation inside [0, L] (flat job-major starts), by a depth-first search over the
     operations in job-major order that only uses the JSSP definition (precedence inside a job, no overlap on a machine).
@@ -848,6 +860,58 @@ def gen_large_slack_case(rng, share=0):
         return {"inst": inst, "L": L, "P": P, "shape": "large-slack:" + shape, "penalties": kind, "large_slack": True}
 
 
+def gen_huge_limit_case(rng, share=0, kind=None):
+    kind = kind or rng.choice(["unit", "long"])
+    for _ in range(200):
+        c = _gen_huge_limit_case(rng, share, kind)
+        if kind == "unit" or (1 <= expected_qubits(c["inst"], c["L"]) <= 12 and feasible_schedules(c["inst"], c["L"])):
+            return c
+    raise RuntimeError("huge-limit generator: no feasible instance in 200 draws")
+
+
+def _gen_huge_limit_case(rng, share=0, kind=None):
+    """(n_jobs+1)^limit >= 2^63.  kind 'unit': short operations, 60..136 qubits (exact evaluation of selected states);
+    kind 'long': long operations with slack 1..3, <= 12 qubits (all basis states through `examine`)."""
+    kind = kind or rng.choice(["unit", "long"])
+    J = rng.choice([1, 2, 3])
+
+    def mk(jobs):
+        return {"name": "inst", "machines": ["m0", "m1"], "jobs": [
+            {"name": f"j{j}", "ops": [{"name": f"o{x}", "job": f"j{j}", "machine": m, "dur": d} for x, (m, d) in enumerate(t)]} for j, t in enumerate(jobs)]}
+
+    while True:
+        P, pk = gen_penalties(rng, share=share)
+        if P["opt"] >= 0.25:
+            break
+    if kind == "unit":
+        if J == 1:
+            inst, L = mk([[("m0", 1), ("m1", 1)]]), rng.randint(63, 70)
+        elif J == 2:
+            inst, L = mk([[("m0", rng.randint(1, 2))], [("m0", rng.randint(1, 2))]]), rng.randint(40, 45)
+        else:
+            inst, L = mk([[("m0", 1)], [("m0", 1)], [("m1", 1)]]), rng.randint(32, 36)
+        return {"inst": inst, "L": L, "P": P, "shape": f"huge-limit:unit:{J}-jobs", "penalties": pk, "large_slack": True, "huge": True}
+    slack = rng.randint(1, 3)
+    if J == 1:
+        d1 = rng.randint(25, 36)
+        L = rng.randint(63, 66)
+        inst = mk([[("m0", d1), ("m1", L - slack - d1)]])
+    elif J == 2:
+        L = rng.randint(40, 42)
+        a, b = rng.randint(15, 22), rng.randint(15, 22)
+        inst = mk([[("m0", a), ("m1", L - slack - a)], [("m1", b), ("m0", L - slack - b)]])
+        if expected_qubits(inst, L) > 12:
+            slack = 2
+            inst = mk([[("m0", a), ("m1", L - slack - a)], [("m1", b), ("m0", L - slack - b)]])
+    else:
+        # three long single-operation jobs; two of them may share a machine only if they fit one after the other, which would
+        # need too many qubits, so they run on three machines (the wrap-around concerns the weights, not the pair terms)
+        L = rng.randint(32, 34)
+        inst = mk([[("m0", L - rng.randint(1, 3))], [("m1", L - rng.randint(1, 3))], [("m2", L - rng.randint(1, 3))]])
+        inst["machines"] = ["m0", "m1", "m2"]
+    return {"inst": inst, "L": L, "P": P, "shape": f"huge-limit:long:{J}-jobs", "penalties": pk}
+
+
 def lit_energy_rel(inst, L, P, samples, rel):
     return f"JEnergyRel {jssp.g_inst(inst)} {g_z(L)} {g_pen(P)} {g_list(g_pair(g_bits(b), g_q(x)) for b, x in samples)} {g_q(rel)}"
 
@@ -862,7 +926,10 @@ def examine_large_slack(ctx, batch, case, want, rng, n_samples=5):
     ctx.notes["large_slack_family"] = LARGE_SLACK_NOTE
     J = len(inst["jobs"])
     W, share = Fraction(P["opt"]), Fraction(P["share"])
-    assert J <= 3 and L <= 30 and W >= Fraction(1, 4), "outside the float-resolution bound this family states"
+    huge = bool(case.get("huge"))
+    if huge:
+        ctx.notes["huge_limit_family"] = HUGE_LIMIT_NOTE
+    assert J <= 3 and L <= (70 if huge else 30) and W >= Fraction(1, 4), "outside the float-resolution bound this family states"
     try:
         enc = impl_encoder(inst, L, P)
         nq = impl_n_qubits(enc)
@@ -877,10 +944,16 @@ def examine_large_slack(ctx, batch, case, want, rng, n_samples=5):
     if H.paulis.x.any():
         ctx.violation("oracle", "not-diagonal", "Hamiltonian contains X/Y factors", case)
         return summ
-    feas = feasible_schedules_dfs(inst, L)
+    feas = feasible_schedules_dfs(inst, L, cap=60000 if huge else 8000)
     if not feas:
         ctx.tally("large-slack:skipped-too-many-schedules" if feas is None else "large-slack:no-feasible-schedule")
         return summ
+    best_makespan = min(makespan_of(inst, st) for st in feas)
+    if len(feas) > 2500:  # keep the extremes of the makespan range and a random sample: every clause is about pairs of feasible schedules
+        feas.sort(key=lambda st: (makespan_of(inst, st), st))
+        keep = feas[:700] + feas[-700:] + rng.sample(feas[700:-700], 1100)
+        feas = sorted(keep, key=lambda st: (makespan_of(inst, st), st))
+        ctx.tally("large-slack:feasible-schedules-subsampled")
     rows, strings = [], []
     for st in feas:
         b = encode_bitstring(vars_, st, n)
@@ -920,10 +993,46 @@ def examine_large_slack(ctx, batch, case, want, rng, n_samples=5):
             ctx.tally("makespan-order:pairs-of-classes")
         Emin = min(energies)
         for st, b, E in zip(feas, strings, energies):
-            if E == Emin and makespan_of(inst, st) != mks[0]:
-                ctx.violation("oracle", "ground-state", f"the minimum energy over the feasible states ({float(Emin)!r}) is attained by {b!r} = schedule {st} with makespan {makespan_of(inst, st)}; the optimum is {mks[0]}; limit {L}", dict(case, bitstring=b))
+            if E == Emin and makespan_of(inst, st) != best_makespan:
+                ctx.violation("oracle", "ground-state", f"the minimum energy over the feasible states ({float(Emin)!r}) is attained by {b!r} = schedule {st} with makespan {makespan_of(inst, st)}; the optimum is {best_makespan}; limit {L}", dict(case, bitstring=b))
                 break
         ctx.tally("ground-state:checked-over-feasible-states")
+    extra = []
+    if "C01" in want and in_regime(P):
+        # a few fully decoded infeasible states (start times inside the windows, violating precedence / overlap) and undecodable ones
+        Pp, Po, Pe = Fraction(P["prec"]), Fraction(P["overlap"]), Fraction(P["enc"])
+        cand = []
+        for _ in range(60):
+            st = [rng.choice(vals) for _, vals in vars_]
+            if count_violations(inst, st) != (0, 0):
+                cand.append(encode_bitstring(vars_, st, n))
+            if len(cand) >= 8:
+                break
+        for b0 in rng.sample(strings, min(8, len(strings))):
+            bits = list(b0)
+            q0, vals = rng.choice([v for v in vars_ if len(v[1]) >= 3])
+            k = rng.randrange(q0, q0 + len(vals) - 1)
+            bits[n - 1 - k] = "1" if bits[n - 1 - k] == "0" else "0"
+            cand.append("".join(bits))
+        cand = list(dict.fromkeys(cand))
+        cE = exact_energies(exact_terms(H), n, [[int(ch) for ch in reversed(b)] for b in cand]) if cand else []
+        for b, E in zip(cand, cE):
+            try:
+                flat, valid, mk = impl_decode(enc, inst, b)
+            except Exception as e:  # noqa
+                ctx.violation("oracle", f"decode-raises-{type(e).__name__}", f"translate_result_bitstring({b!r}) raised {type(e).__name__}: {e}", dict(case, bitstring=b))
+                continue
+            if -1 in flat:
+                ctx.tally("state:undecodable")
+                if E < Pe - eps:
+                    ctx.violation("oracle", "undecodable-below-encoding-penalty", f"{b!r} has an undecodable variable (decoding {flat}) but exact energy {float(E)} < encoding penalty {float(Pe)}", dict(case, bitstring=b))
+            else:
+                npr, nov = count_violations(inst, flat)
+                opt = E - (Pp * npr + Po * nov)
+                ctx.tally("state:feasible" if (npr, nov) == (0, 0) else "state:infeasible-decoded")
+                if not (-eps <= opt <= W + eps):
+                    ctx.violation("oracle", "decoded-penalties" if (npr, nov) != (0, 0) else "feasible-out-of-range", f"{b!r} decodes to {flat} with {npr} precedence and {nov} overlap violations; exact energy {float(E)} minus penalties = {float(opt)} is outside [0, {float(W)}]", dict(case, bitstring=b))
+            extra.append((b, E))
     # model: exact energies of sampled feasible states, tolerance relative to each state's own energy
     picks = []
     for m in mks[:2]:
@@ -933,7 +1042,7 @@ def examine_large_slack(ctx, batch, case, want, rng, n_samples=5):
         picks.append(rng.choice(strings))
     picks = list(dict.fromkeys(picks))
     e_of = dict(zip(strings, energies))
-    batch.add(lit_energy_rel(inst, L, P, [(b, e_of[b]) for b in picks], Fraction(1, 10 ** 9)), dict(case, bitstrings=picks))
+    batch.add(lit_energy_rel(inst, L, P, [(b, e_of[b]) for b in picks] + extra[:2], Fraction(1, 10 ** 9)), dict(case, bitstrings=picks + [b for b, _ in extra[:2]]))
     for b in picks[:2]:
         batch.add(lit_decode(inst, L, b, ("ok", feas[strings.index(b)])), dict(case, bitstring=b))
     return summ
